@@ -94,6 +94,11 @@ def verify_unit(args):
             if oi % nshards != shard:
                 continue
             st, solver, ms, model, reason, size = tr.solve(ob, lemmas, timeout_ms=opts['timeout'], fuel=opts['fuel'])
+            if ob.kind == 'cover':
+                # a cover is GOOD when it is satisfiable: assumptions that cannot hold together prove anything
+                st = {'refuted': 'covered', 'discharged': 'vacuous'}.get(st, 'cover-undecided')
+                results.append(Result(ob.name, ob.function, ob.kind, st, solver, ms, None, reason, ob.lineno, size, serves=serves))
+                continue
             if st == 'refuted' and opts.get('refute_fuel', 0) > opts['fuel']:
                 # a sat answer under limited unfolding is only a candidate: retry deeper
                 st2, solver2, ms2, model2, reason2, size2 = tr.solve(ob, lemmas, timeout_ms=opts['timeout'],
@@ -182,10 +187,16 @@ def main():
             print('OUTSIDE  %s: %s' % (tag, meta['outside']))
         if meta.get('crash'):
             print('CRASH    %s\n%s' % (tag, meta['crash']))
+        covers = [r for r in results if r['kind'] == 'cover']
+        results = [r for r in results if r['kind'] != 'cover']
         ok = sum(1 for r in results if r['status'] == 'discharged')
         n += len(results)
         d += ok
-        print('%-60s paths=%-4d obligations=%-4d discharged=%-4d %.1fs' % (tag, meta['paths'], len(results), ok, meta['wall_s']))
+        print('%-60s paths=%-4d obligations=%-4d discharged=%-4d covers=%d/%d %.1fs' % (
+            tag, meta['paths'], len(results), ok, sum(c['status'] == 'covered' for c in covers), len(covers), meta['wall_s']))
+        for r in covers:
+            if r['status'] != 'covered':
+                print('   %-10s %s' % (r['status'], r['name']))
         for r in results:
             if r['status'] != 'discharged' or a.v:
                 print('   %-10s %-8s %7.0fms  %s  (line %s) %s' % (r['status'], r['solver'], r['ms'], r['name'], r['lineno'], r['reason']))
